@@ -21,12 +21,15 @@ CONSTANTS MaxLen,      \* longest element sequence
           Excused,     \* named deviations of the implementation that are known findings
           Emit         \* print every case with its reference answer (spec -> code)
 
-Mappings  == {"dict", "odict", "mproxy", "cmap"}
+\* ("...falsy": instances are falsy / claim length 0 although they have members -- __bool__ and __len__ belong to the value)
+Mappings  == {"dict", "odict", "mproxy", "cmap", "cmapfalsy"}
 \* ("...child": the class inherits its first fields from a base of the same flavour and declares the rest itself)
 \* ("slotsonlychild": a subclass, without __slots__ of its own, of a slots-only class; "slotsonlygrand": a subclass that adds slots;
 \*  "plainchild": annotated fields inherited from a base, and a member of its own whose annotation cannot be evaluated)
-Structs   == {"dc", "dcslots", "plain", "slotsonly", "varsonly", "dcchild", "dcslotschild", "slotsonlychild", "slotsonlygrand", "plainchild"}
-NTs       == {"nt"}
+\*  "plaindesc": every member is a property over a raw entry of the same name in the instance __dict__)
+Structs   == {"dc", "dcslots", "plain", "slotsonly", "varsonly", "dcchild", "dcslotschild", "slotsonlychild", "slotsonlygrand", "plainchild",
+              "dcfalsy", "plaindesc"}
+NTs       == {"nt", "ntfalsy"}
 \* classes for which inspection.issequencetype holds (peeked with next(iter(x), ()))
 SeqLike   == {"list", "tuple", "set", "frozenset", "deque", "str", "bytes"}
 \* other iterables: wrapped in more_itertools.peekable
